@@ -7,7 +7,9 @@ package main
 import (
 	"fmt"
 	"go/ast"
+	"go/token"
 	"go/types"
+	"strconv"
 	"os"
 	"path/filepath"
 	"regexp"
@@ -28,6 +30,32 @@ func (e *Engine) stubNames() []string {
 		}
 		for _, m := range stubRe.FindAllStringSubmatch(string(b), -1) {
 			seen[m[1]] = true
+		}
+	}
+	// every string constant of a harness file that names a function of the repository is a stub candidate
+	// (a guard on a function that no harness stubs is inert)
+	for _, p := range e.allPkgs() {
+		for i, f := range p.Syntax {
+			if i >= len(p.CompiledGoFiles) {
+				continue
+			}
+			if _, isHarness := e.overlay[p.CompiledGoFiles[i]]; !isHarness {
+				continue
+			}
+			ast.Inspect(f, func(n ast.Node) bool {
+				lit, ok := n.(*ast.BasicLit)
+				if !ok || lit.Kind != token.STRING {
+					return true
+				}
+				v, err := strconv.Unquote(lit.Value)
+				if err != nil || !strings.Contains(v, repoMod) {
+					return true
+				}
+				if fn := e.findFunc(v); fn != nil && fn.String() == v {
+					seen[v] = true
+				}
+				return true
+			})
 		}
 	}
 	var out []string
@@ -65,7 +93,11 @@ func (e *Engine) findFunc(name string) *ssa.Function {
 		if ptr {
 			T = types.NewPointer(T)
 		}
-		return e.prog.LookupMethod(T, p.Pkg, meth)
+		sel := e.prog.MethodSets.MethodSet(T).Lookup(p.Pkg, meth)
+		if sel == nil {
+			return nil
+		}
+		return e.prog.MethodValue(sel)
 	}
 	j := strings.LastIndex(name, ".")
 	if j < 0 {
